@@ -27,6 +27,10 @@ class C09(Prop):
     def gen(self, rng, i, tier):
         if rng.random() < 0.04:
             edges, shape = [list(e) for e in self.FIXTURE], "fixture"
+        elif rng.random() < 0.25:
+            edges, shape = cc.gen_soup(rng)
+            return {"edges": edges, "m0": rng.choice([3, 4, 4, 5]), "shape": shape,
+                    "choices": [rng.randrange(1 << 20) for _ in range(40)]}
         else:
             edges, shape = cc.gen_graph(rng, 4, 9 if tier == "quick" else 10)
         return {"edges": edges, "m0": rng.choice([2, 3, 3, 4, 5, 6]), "shape": shape,
@@ -62,6 +66,8 @@ class C09(Prop):
                 "candidate_set_sizes": state["cands"], "nodes": cc.nodes_of(case["edges"])}
 
     def request(self, case, obs):
+        if len(cc.nodes_of(case["edges"])) > 12:
+            return None          # the model's maximal cliques are a brute-force definition: large graphs are oracle-only
         if "exc" in obs:
             return {"op": "c09", "kind": "lmc", "edges": case["edges"], "nodes": cc.nodes_of(case["edges"]), "m0": case["m0"], "picks": []}
         return {"op": "c09", "edges": case["edges"], "nodes": obs["nodes"], "m0": case["m0"], "picks": obs["picks"]}
@@ -102,7 +108,7 @@ class C09(Prop):
         if obs["has_edges_after"]:
             f.append("working-graph-not-empty: has_edges() is true afterwards")
         nodes = cc.nodes_of(case["edges"])
-        mx = cc.maximal_cliques(nodes, eset)
+        mx = cc.maximal_cliques(nodes, eset) if len(nodes) <= 12 else cc.maximal_cliques_bk(nodes, eset)
         medges = [set(map(frozenset, itertools.combinations(c, 2))) for c in mx]
         cov = {tuple(sorted(c)) for c in obs["raw_cover"]}
         for i, c in enumerate(mx):
